@@ -33,12 +33,18 @@
               payload byte and touches nothing else (for every well-formed state; the proof is about the
               decision found in the source and stops compiling if the Len test disappears:
               C06_reuse_without_len_test_loses_unread shows what is lost then).
-     STATED, NOT PROVED  C06_duplex_full (op-by-op agreement of the two-direction model with two byte
-              queues, ReleaseReadAndReuse only by a stream without unflushed writes): each direction alone
-              is theorem C06; the missing piece is the invariant across a swap (the adopted slice becomes a
-              well-formed send buffer: needs "write pointer of a receive buffer = its last slice" and
-              "start = 0" as extra invariants) and the frame of one direction's steps for the other one.
-              Covered by the correspondence harness (echo through the adopted slice, both levels).
+     PROVED   C06_duplex (= C06_duplex_full): for every configuration with positive capacities and every
+              sequence of operations of BOTH directions (all operations of C06 in either direction, plus
+              ReleaseReadAndReuse by either stream, incl. the swap, the adopted slice used for the echo, the
+              fallback flag a reader inherits from a fallback delivery) the two-direction model never panics and
+              agrees op by op with two byte queues (bytes, n, Len of all four buffers), under the explicit guard
+              dop_ok: ReleaseReadAndReuse is only called by a stream WITHOUT written-but-unflushed bytes.
+              C06_duplex_invariant_op / _reuse: the invariant of the pair (each direction satisfies the pipe
+              invariant with the slots of the other direction as untouched, never-free externals).
+     REFUTED without the guard: C06_duplex_unguarded_refuted (the documented misuse: write 3 bytes, do not
+              flush, ReleaseReadAndReuse -> the swap puts the stream's own unflushed bytes into its read buffer;
+              cf. the unflushed-data test in Stream.reset).  C06_duplex_example: the guard is satisfiable with a
+              real swap (the echo is written into the adopted slot: no new allocation) .
 
    Outside the model (assumptions recorded in the evidence): negative sizes, uint32 truncation of
    sizes above 2^31, concurrency (one writer and one reader goroutine per direction; the lock-free
@@ -97,6 +103,41 @@ Print Assumptions C06_reserve.
 (* ---- both directions: Stream.ReleaseReadAndReuse ---- *)
 Definition C06_duplex_full : Prop :=
   forall cfg ops, cfg_ok cfg -> dagrees (init_dsys cfg) spec0 spec0 ops.
+
+Theorem C06_duplex : C06_duplex_full.
+Proof. exact duplex_refines. Qed.
+Print Assumptions C06_duplex.
+
+Definition C06_duplex_unguarded : Prop :=
+  forall cfg ops, cfg_ok cfg -> dagrees_unguarded (init_dsys cfg) spec0 spec0 ops.
+
+Theorem C06_duplex_unguarded_refuted : ~ C06_duplex_unguarded.
+Proof. exact duplex_unguarded_refuted. Qed.
+Print Assumptions C06_duplex_unguarded_refuted.
+
+Theorem C06_duplex_invariant_op : forall D sp0 sp1 d o, DInv D sp0 sp1 ->
+  match dspec_step sp0 sp1 (DOp d o) with
+  | None => mdstep D (DOp d o) = Blocked
+  | Some (x, sp0', sp1') => exists y D', mdstep D (DOp d o) = Ok (y, D') /\ res_agree o x y /\ DInv D' sp0' sp1'
+  end.
+Proof. exact dstep_op_inv. Qed.
+Print Assumptions C06_duplex_invariant_op.
+
+Theorem C06_duplex_invariant_reuse : forall D sp0 sp1 d, DInv D sp0 sp1 -> dop_ok sp0 sp1 (DReuse d) ->
+  exists D', mdstep D (DReuse d) = Ok (RUnit, D') /\ DInv D' sp0 sp1.
+Proof. exact dstep_reuse_inv. Qed.
+Print Assumptions C06_duplex_invariant_reuse.
+
+Example C06_duplex_example :
+  let ops := [DOp false (WBytes [1; 2; 3; 4]%Z); DOp false WFlush; DOp false (RBytes 4); DReuse false;
+              DOp true (WBytes [7; 8; 9]%Z); DOp true WFlush; DOp true (RBytes 3); DReuse true] in
+  douts (init_dsys [(16, 4)]) ops
+    = map Some [RN 4; RUnit; RData [1; 2; 3; 4]%Z; RUnit; RN 3; RUnit; RData [7; 8; 9]%Z; RUnit]
+  /\ match drun (init_dsys [(16, 4)]) (firstn 5 ops) with
+     | Some D => free_counts (d_mem D) = [3] /\ length (slices (h_snd (d_1 D))) = 1
+     | None => False
+     end.
+Proof. exact duplex_echo_through_adopted_slice. Qed.
 
 Theorem C06_reuse_keeps_unread : forall D d,
   let h := dhalf D d in let o := dhalf D (negb d) in
